@@ -9,7 +9,7 @@
 From Coq Require Import List ZArith Bool.
 From SV Require Import Producer.Msg Producer.Actors Producer.Compose Producer.Weights Producer.Global
                        Producer.Shape Producer.Conservation Producer.Shutdown Producer.Progress Producer.Markers Producer.Examples
-                       Producer.Liveness Producer.Complete
+                       Producer.Liveness Producer.Reading Producer.Complete
                        Gen.GoInt Gen.DecTypes Gen.DecTypes2 Gen.DecC01 Producer.DecTie.
 Import ListNotations.
 Open Scope Z_scope.
@@ -107,13 +107,15 @@ Print Assumptions c01_progress_partial.
    unbounded queues, one handler invocation = one atomic step), not about real time or back-pressure.
 
    PARTIAL.  Proved for every reachable state: the two non-trivial places where a message could be stranded
-   have an owner that can move it (no dead end there) -- c01_no_lost_chaser, c01_held_buffer_flushable;
+   have an owner that can move it (no dead end there) -- c01_no_lost_chaser, c01_held_buffer_flushable,
+   c01_stopped_reader_has_no_input;
    the trivial owners are c01_progress_partial.  Proved once and for all: a completed bounded run of the
    canonical good-environment scheduler IS a completing continuation with everything the property asks for
    (c01_can_complete_partial).  Checked by computation, not proved in general: that the scheduler does reach
    completion within the bound mu -- on every prefix of the example schedules and on every state reached by
    0..120 steps against an always-NotLeader cluster and against always-failing connections, for three
-   configurations (c01_can_complete_instances).  Missing for the unconditional theorem: the ranking argument
+   configurations, and on every state visited by 400 pseudo-random walks over all enabled actor and environment
+   moves (c01_can_complete_instances; this check found the newHighWatermark nil-broker-worker panic).  Missing for the unconditional theorem: the ranking argument
    (next_choice is never None before completion, mu strictly decreases); see checks/notes/C01.md. *)
 
 (* no lost chaser: every partition worker is well formed; whenever it parks a message it is expecting the fin
@@ -143,6 +145,15 @@ Theorem c01_held_buffer_flushable : forall c sched b x ep, fcfg c ->
 Proof. exact held_buffer_flushable. Qed.
 Print Assumptions c01_held_buffer_flushable.
 
+(* a broker worker that has left its run loop did so on a closed, empty input, and nothing is queued for it
+   afterwards (a send to it is the panic state 14): no message is stranded in front of a worker that no longer
+   reads.  All configurations, all schedules. *)
+Theorem c01_stopped_reader_has_no_input : forall c sched b x,
+  nth_error (g_bps (run c sched)) b = Some x -> b_mode (i_st x) <> MRun ->
+  i_in_closed x = true /\ q_get (DBp b) (g_q (run c sched)) = [].
+Proof. exact stopped_reader_has_no_input. Qed.
+Print Assumptions c01_stopped_reader_has_no_input.
+
 (* the criterion: drain only emits choices of the composition, so a completed bounded drain from a reachable
    state yields a continuation k (good environment: successful lookups, success answers, timers, one AsyncClose,
    no further submission) of length <= n after which inFlight = 0, no token of any message is left anywhere,
@@ -167,8 +178,10 @@ Theorem c01_can_complete_instances :
    forallb (fun j => can_complete_now cfg_idem2 (run cfg_idem2 (hostile cfg_idem2 subs4 j))) (seq 0 121) = true) /\
   (forallb (fun j => can_complete_now cfg_timer (run cfg_timer (broken cfg_timer subs4 j))) (seq 0 121) = true /\
    forallb (fun j => can_complete_now (cfg_ic true) (run (cfg_ic true) (broken (cfg_ic true) subs4 j))) (seq 0 121) = true /\
-   forallb (fun j => can_complete_now cfg_idem2 (run cfg_idem2 (broken cfg_idem2 subs4 j))) (seq 0 121) = true).
-Proof. exact (conj examples_can_complete (conj hostile_can_complete broken_can_complete)). Qed.
+   forallb (fun j => can_complete_now cfg_idem2 (run cfg_idem2 (broken cfg_idem2 subs4 j))) (seq 0 121) = true) /\
+  (walks_ok cfg_timer 6 400 100 = true /\ walks_ok cfg_idem2 6 400 100 = true /\
+   walks_ok (cfg_ic true) 6 400 100 = true /\ walks_ok cfg_r0 6 400 100 = true).
+Proof. exact (conj examples_can_complete (conj hostile_can_complete (conj broken_can_complete walks_can_complete))). Qed.
 Print Assumptions c01_can_complete_instances.
 
 (* the pinned tree (retryBatch fails only the first message of an exhausted batch): an outcome is lost and
